@@ -161,6 +161,15 @@ def od_systems(tier):
                        "space": {"type": "grid", "w": 3, "h": 2, "d": 1, "vol": 1.0, "bc": {"x": "periodical"}},
                        "chemostats": [0, 0, 1, 1, 0, 0]},
               "init": [[0, 0, 2, 1, 0, 0], [1, 0, 1, 1, 0, 1]]})
+    s.append({"name": "zero-order source 0->A and decay on a 2x1x1 grid, starting from completely empty cells",
+              "spec": {"species": [{"label": "A", "D": 1.0}, {"label": "B", "D": 0.0}],
+                       "reactions": [R([], [("A", 1)], 0.9), R([("A", 1)], [("B", 1)], 0.4)], "envs": [""],
+                       "space": {"type": "grid", "w": 2, "h": 1, "d": 1, "vol": 2.0}},
+              "init": [[0, 0, 0, 0], [2, 0, 0, 0]]})
+    s.append({"name": "zero-order source 0->A on a 2-node graph, starting from completely empty nodes",
+              "spec": {"species": [{"label": "A", "D": 1.0}], "reactions": [R([], [("A", 1)], {"a": 0.9, "b": 0.3})], "envs": ["a", "b"],
+                       "space": {"type": "graph", "nodes": [{"vol": 1.0, "env": 0}, {"vol": 2.0, "env": 1}], "edges": [[0, 1, 1.5, 0.75]]}},
+              "init": [[0, 0], [0, 1]]})
     for nm, f in (("rates x 1e-20 (total propensity far below machine epsilon, still non-zero)", 1e-20), ("rates x 1e+12", 1e12)):
         s.append({"name": "A<->B + diffusion on 2x1x1, " + nm,
                   "spec": {"species": [{"label": "A", "D": 1.0 * f}, {"label": "B", "D": 0.5 * f}],
@@ -440,6 +449,15 @@ def tl_systems():
                   "reactions": [R([("A", 1)], [("B", 1)], 1.6, 0.0)], "envs": [""],
                   "space": {"type": "graph", "nodes": [{"vol": 1.0, "env": 0}, {"vol": 2.0, "env": 0}], "edges": [[0, 1, 1.0, 1.0]]},
                   "state": [1000.0, 4000.0, 5000.0, 0.0], "chemostats": [1, 1, 0, 0]}},
+        {"name": "reservoir: a cell with every species chemostated next to empty free cells, 3x1x1 grid",
+         "spec": {"species": [{"label": "A", "D": 1.0}], "reactions": [], "envs": [""],
+                  "space": {"type": "grid", "w": 3, "h": 1, "d": 1, "vol": 1.0},
+                  "state": [50.0, 0.0, 0.0], "chemostats": [1, 0, 0]}},
+        {"name": "reservoir: a node with both species chemostated next to empty free nodes, 3-node graph",
+         "spec": {"species": [{"label": "A", "D": 1.0}, {"label": "B", "D": 0.5}], "reactions": [R([("A", 1)], [("B", 1)], 0.3, 0.1)], "envs": [""],
+                  "space": {"type": "graph", "nodes": [{"vol": 1.0, "env": 0}, {"vol": 2.0, "env": 0}, {"vol": 0.5, "env": 0}],
+                            "edges": [[0, 1, 1.5, 0.75], [2, 1, 2.5, 1.25]]},
+                  "state": [40.0, 0.0, 0.0, 25.0, 0.0, 0.0], "chemostats": [1, 0, 0, 1, 0, 0]}},
         {"name": "3A->B single cell",
          "spec": {"species": [{"label": "A"}, {"label": "B"}], "reactions": [R([("A", 3)], [("B", 1)], 0.001, 0.5)], "envs": [""],
                   "space": {"type": "grid", "w": 1, "h": 1, "d": 1, "vol": 0.5}, "state": [40.0, 5.0]}},
